@@ -9,6 +9,7 @@ spec = {"tasks": [{"id": int, "module": int, "deps": [n…], "prods": [n…], "a
         "dirs": [n…],      # node ids that are DirectoryNode(root_dir=data/dir<n>, pattern="*.txt") — declared as products only
         "subdirs": bool,   # module m lives in its own folder m<m>/task_m<m>.py (relative spellings then start with ../)
         "pyval": {"<n>": 1|2},  # in-memory nodes created with an initial value (None / 0) instead of value-less
+        "nname": {"<n>": suffix},   # node n is called n<n><suffix>.txt / dir<n><suffix> / py<n><suffix>; task ids: task["tid"] -> @task(id=…)
         "iface": "paths"|"tasks-fwd"|"tasks-rev",   # path collection, or the functions handed to build(tasks=[…]) in either order (one module)
         "opts": {…},       # build options that must be irrelevant to well-formedness (check_casing_of_paths, force, dry_run, verbose, capture)
         "wrap": [[t, n]…], # (API level only) dependency declared through a wrapping PythonNode
@@ -383,6 +384,28 @@ def add_decoration(rng, spec, mark_p=0.35, task_p=0.2):
     return spec
 
 
+TASK_IDS = ("/raw", "bold", "/", "red]x[/red", "[", "]", "link=a", "/bold", "b][i", "not markup", "1", "/red", "/x")
+PY_SUFFIXES = ("[/x]", "[/]", "[/raw]", "[/bold]", "[/red]y")
+NODE_SUFFIXES = ("[bold]", "[x]", "[red]x[", "]", "[", "[link=a]", "[1]", "[b]y[-b]", "[bold red]")
+
+
+def add_names(rng, spec, id_p=0.5, node_p=0.3):
+    """User-chosen names: task ids through @task(id=…) and node names, drawn from pools that contain strings which look like
+    rich console markup. Names must never change the outcome."""
+    for t in spec["tasks"]:
+        t["tid"] = rng.choice(TASK_IDS) if rng.random() < id_p else None
+    nodes = sorted({x for t in spec["tasks"] for x in t["deps"] + t["prods"]})
+    py = set(spec.get("py", []))
+    spec["nname"] = {}
+    for n in nodes:
+        if n in py:      # not a file name: may contain a slash, i.e. look like a closing tag
+            if rng.random() < max(node_p, 0.5):
+                spec["nname"][str(n)] = rng.choice(NODE_SUFFIXES + PY_SUFFIXES)
+        elif rng.random() < node_p:
+            spec["nname"][str(n)] = rng.choice(NODE_SUFFIXES)
+    return spec
+
+
 def add_product_styles(rng, spec):
     """A declaration style per product, so that one task mixes the `produces` argument, Product parameters, a return annotation
     and @task(produces=…)."""
@@ -545,10 +568,11 @@ ROOT = Path(__file__).resolve().parent
 LOG = ROOT / ".verif_log"
 PY = {}
 
-def py(n, init=0):
+def py(n, init=0, suffix=""):
     """init=0: a value-less node; 1: created with value=None; 2: created with value=0 (it already holds a value at collection)"""
     if n not in PY:
-        PY[n] = PythonNode(name=f"py{n}") if init == 0 else PythonNode(name=f"py{n}", value=None if init == 1 else 0)
+        name = f"py{n}{suffix}"
+        PY[n] = PythonNode(name=name) if init == 0 else PythonNode(name=name, value=None if init == 1 else 0)
     return PY[n]
 
 def log(line):
@@ -576,8 +600,14 @@ def body(t, prods, nret, save=(), dirs=()):
 '''
 
 
-def path_expr(n, spell, subdirs=False, is_dir=False):
-    f = f"dir{n}" if is_dir else f"n{n}.txt"
+def node_fname(spec, n, is_dir=False):
+    """file (or directory) name of node n; spec["nname"] may attach a suffix that looks like rich markup, e.g. n5[bold].txt"""
+    suf = (spec.get("nname") or {}).get(str(n), "") if spec is not None else ""
+    return f"dir{n}{suf}" if is_dir else f"n{n}{suf}.txt"
+
+
+def path_expr(n, spell, subdirs=False, is_dir=False, spec=None):
+    f = node_fname(spec, n, is_dir)
     pre = "../data" if subdirs else "data"
     return {
         "rel": f"Path('{pre}/{f}')",
@@ -610,11 +640,12 @@ def render_module(spec, m):
         tid = t["id"]
 
         def pe(n, is_dir=False):
-            return path_expr(n, t["spell"].get(str(n), "abs"), sub, is_dir)
+            return path_expr(n, t["spell"].get(str(n), "abs"), sub, is_dir, spec)
 
         def node_expr(n):
             if n in py:
-                return f"rt.py({n}, {pyval[str(n)]})" if str(n) in pyval else f"rt.py({n})"
+                suf = (spec.get("nname") or {}).get(str(n), "")
+                return f"rt.py({n}, {pyval.get(str(n), 0)}, {suf!r})" if (str(n) in pyval or suf) else f"rt.py({n})"
             if n in pk:
                 return f"PickleNode(path={pe(n)})"
             return pe(n)
@@ -724,6 +755,8 @@ def render_module(spec, m):
                 else:
                     withdef.append(f"p{i}: Annotated[Path, Product] = {pe(n)}")
                     path_prods.append(f"p{i}")
+        if t.get("tid") is not None:
+            kw.append(f"id={t['tid']!r}")        # the task is then called task_tNNx[<id>]
         marks = t.get("marks", [])
         for mk in marks:
             L.append({"skipif_false": "@pytask.mark.skipif(False, reason='cond false')"}.get(mk, f"@pytask.mark.{mk}"))
@@ -747,7 +780,7 @@ def input_nodes(spec):
 
 
 def node_file(root: Path, spec, n: int) -> Path:
-    return (root / "data" / f"dir{n}") if n in set(spec.get("dirs", [])) else project.node_path(root, n)
+    return root / "data" / node_fname(spec, n, n in set(spec.get("dirs", [])))
 
 
 def materialise(root: Path, spec, stale=False):
@@ -771,7 +804,7 @@ def materialise(root: Path, spec, stale=False):
         if not mp.exists() or mp.read_text() != txt:
             mp.write_text(txt)
     for n in input_nodes(spec):
-        p = project.node_path(root, n)
+        p = node_file(root, spec, n)
         if not p.exists():
             if n in pk:
                 p.write_bytes(pickle.dumps("7"))
@@ -782,7 +815,7 @@ def materialise(root: Path, spec, stale=False):
         for t in spec["tasks"]:
             for n in t["prods"]:
                 if n not in skip:
-                    p = project.node_path(root, n)
+                    p = node_file(root, spec, n)
                     if not p.exists():
                         if n in pk:
                             p.write_bytes(pickle.dumps("0"))
